@@ -1,9 +1,12 @@
 #!/bin/bash
-# Run every quick check under several VERIF_SEED values (used to look for alarms on the unchanged tree).
+# Run every check under several VERIF_SEED values (used to look for alarms on the unchanged tree).
+#   tools/sweep_seeds.sh <seed>...            quick tier
+#   TIER=thorough tools/sweep_seeds.sh <seed>...
 cd "$(dirname "$0")/.." || exit 2
+tier="${TIER:-quick}"
 ./check setup || exit 2
 for seed in "$@"; do
-  for p in C01 C05 C06 C07 C08 C09 C10 C12 C15 C18 C19; do
-    VERIF_SEED=$seed ./check $p quick 2>&1 | grep -E "^C[0-9]+( shuttle)?:|VIOLATION|harness|tally" | sed "s/^/seed=$seed /" | cut -c1-260
+  for p in ${PROPS:-C01 C05 C06 C07 C08 C09 C10 C12 C15 C18 C19}; do
+    VERIF_SEED=$seed ./check $p "$tier" 2>&1 | grep -E "^C[0-9]+( shuttle)?:|VIOLATION|harness|tally" | sed "s/^/seed=$seed /" | cut -c1-260
   done
 done
